@@ -476,6 +476,23 @@ def check_bloom(rep, tier, rng, drv, run):
                 bad = "false negative"
         if bad:
             rep.violation(f"create_with_ndv({ndv}, {fpp}): {bad}: {a[:200]}", {"case": li, "impl": a[:500]})
+    # NULL-filter entry points and an allocation that cannot succeed (implementation only; not modelled):
+    # nothing may crash, a check without a filter must answer "maybe present" (never a false negative),
+    # accessors give NULL/0, write/read/merge refuse, and a live filter is left untouched
+    nl = ["bloomnull %016x %s" % (rand_hash(rng), hexs(rand_bytes(rng, rng.choice([0, 1, 5, 33])))) for _ in range(4)]
+    nl += ["bloom c:0:%x qh:0:0000000000000001" % n for n in (1 << 62, (1 << 63) + 5)]
+    out, pr = run_sharded(drv, nl, shards=2)
+    for p in pr:
+        rep.violation(f"implementation driver died on a NULL filter / impossible allocation (rc={p[1]}): {p[2][-500:]}", {"case": p[3]})
+    want_null = ("OK ins qh=1 q32=1 q64=1 qf=1 qd=1 qb=1 data=NULL size=0 blocks=0 w=err w2=err w3=err r=err r2=err "
+                 "m=err m2=err fresh=0")
+    for li, a in zip(nl, out):
+        rep.count(li)
+        if a.startswith("FAULT"):
+            continue
+        want = want_null if li.startswith("bloomnull") else "OK c=NULL qh=noslot"
+        if a != want:
+            rep.violation(f"NULL filter / impossible allocation: got '{a[:300]}', expected '{want}'", {"case": li, "impl": a[:500]})
     return len(lines)
 
 
@@ -530,6 +547,8 @@ def replay(path):
     if rc != 0 or not out:
         return 1
     t = out[0].split()
+    if case.startswith("bloomnull "):
+        return 0 if out[0].endswith("m=err m2=err fresh=0") and "=0 " not in out[0].split(" data=")[0] else 1
     if case.startswith("xxh "):
         return 1 if (len(t) != 3 or t[0] != "OK" or t[1] != t[2]) else 0
     ops = case.split()[1:]
